@@ -462,6 +462,16 @@ def install(eng):
 
     PY_LOWER = z3.Function('py_lower', z3.StringSort(), z3.StringSort())
 
+    @method('is_integer')
+    def _is_integer(eng, st, args, kw, node):
+        v = args[0]
+        if isinstance(v, (int, fractions.Fraction)):
+            return one(st, fractions.Fraction(v).denominator == 1)
+        if is_intlike(v):
+            return one(st, True)
+        r = to_real(v)
+        return one(st, r == z3.ToReal(z3.ToInt(r)))
+
     @method('lower')
     def _lower(eng, st, args, kw, node):
         s = args[0]
@@ -748,6 +758,7 @@ def install(eng):
         res = v_slice(data, pos, num_binop('+', pos, k, Pending()))
         res = View(k, res.get, Byte, None, 'bytes')
         newpos = simp(num_binop('+', pos, k, Pending()))
+        res.origin = (pos, newpos)        # which bytes of the file this value holds (used by whole-content predicates)
         if 'rd_lo' in f:
             f['rd_lo'] = v_ite(simp(b_and(num_cmp('>', k, 0), num_cmp('<', pos, f['rd_lo']))), pos, f['rd_lo'])
             f['rd_hi'] = v_ite(simp(b_and(num_cmp('>', k, 0), num_cmp('>', newpos, f['rd_hi']))), newpos, f['rd_hi'])
@@ -794,6 +805,59 @@ def install(eng):
     @reg('cls:BinaryIO.tell')
     def _f_tell(eng, st, args, kw, node):
         return one(st, _fobj(st, args[0])['pos'])
+
+    # ------------------------------------------------ text decoded from file bytes, judged as a whole by an uninterpreted predicate
+    class TextVal:
+        """bytes.decode('ascii') of file bytes [lo, hi) (or of an unknown origin): only its origin is tracked, so that a
+        trusted "does this text parse" callee can be stated as an uninterpreted predicate of WHICH bytes it was given."""
+        def __init__(self, origin):
+            self.origin = origin
+
+        def __repr__(self):
+            return 'TextVal(%r)' % (self.origin,)
+    eng.TextVal = TextVal
+    _PREDS = {}
+
+    def content_pred(name, lo, hi):
+        f = _PREDS.get(name)
+        if f is None:
+            f = _PREDS[name] = z3.Function('content_' + name, z3.IntSort(), z3.IntSort(), z3.BoolSort())
+        return f(to_int(lo), to_int(hi))
+
+    @method('decode')
+    def _decode(eng, st, args, kw, node):
+        v = args[0]
+        if not (isinstance(v, View) and v.tag == 'bytes') or len(args) < 2 or args[1] != 'ascii':
+            raise Unsupported('decode of %r' % (v,))
+        # UnicodeDecodeError iff some byte is >= 128
+        i0 = z3.Int(uid('nonascii'))
+        bad = st.copy()
+        bad.assume(z3.And(i0 >= 0, i0 < to_int(v.length), to_int(v.get(i0)) >= 128))
+        if not bad.dead:
+            eng.throw(bad, 'UnicodeDecodeError', node)
+        i = z3.Int(uid('asc'))
+        el = v.get(i)
+        st.assume(z3.ForAll([i], z3.Implies(z3.And(i >= 0, i < to_int(v.length)), to_int(el) < 128), patterns=[el]))
+        eng.trusted_used.add("bytes.decode('ascii'): UnicodeDecodeError iff a byte is >= 128; the text is tracked only by the file range it came from")
+        return one(st, TextVal(getattr(v, 'origin', None)))
+
+    @reg('io.StringIO')
+    def _stringio(eng, st, args, kw, node):
+        if args and isinstance(args[0], TextVal):
+            return one(st, args[0])
+        raise Unsupported('io.StringIO of %r' % (args[:1],))
+
+    @reg('text_pred')
+    def _text_pred(eng, st, args, kw, node):
+        # text_pred(name, text): the uninterpreted predicate `name` of the file bytes the text was decoded from
+        v = args[1]
+        if isinstance(v, TextVal) and v.origin is not None:
+            return one(st, content_pred(args[0], v.origin[0], v.origin[1]))
+        return one(st, z3.Bool(uid('text_pred_unknown')))
+
+    @reg('file_pred')
+    def _file_pred(eng, st, args, kw, node):
+        return one(st, content_pred(args[0], args[1], args[2]))
 
     @reg('time.perf_counter')
     def _perf_counter(eng, st, args, kw, node):
@@ -1013,7 +1077,17 @@ def install(eng):
         p2 = ops.pow2_real(e)
         st.assume(z3.Implies(v > 0, z3.And(p2 / 2 <= v, v < p2)))
         st.assume(z3.Implies(v < 0, z3.And(-p2 < v, v <= -p2 / 2)))
-        eng.assumptions_used.add('math.frexp(v) = (m, e) with v = m * 2**e, 0.5 <= |m| < 1 (or (0, 0)), exact for finite v')
+        # ground facts of arithmetic about 2**e for THIS exponent (the step axioms give them only through long instantiation
+        # chains): positivity, the 23 and 24 bit scalings used by the single precision codes, bounds at the exponents that
+        # delimit their ranges
+        st.assume(p2 > 0)
+        for sh in (23, 24):
+            q = ops.pow2_real(e - sh)
+            st.assume(z3.And(q > 0, p2 == (2 ** sh) * q))
+        for c in (-152, -151, -150, -130, -129, -128, -127, -1, 0, 1, 126, 127, 128):
+            pc_ = z3.Q(2 ** c, 1) if c >= 0 else z3.Q(1, 2 ** (-c))
+            st.assume(z3.And(z3.Implies(e <= c, p2 <= pc_), z3.Implies(e >= c, p2 >= pc_)))
+        eng.assumptions_used.add('math.frexp(v) = (m, e) with v = m * 2**e, 0.5 <= |m| < 1 (or (0, 0)), exact for finite v; ground facts of arithmetic about 2**e are stated with it (2**e > 0, 2**e = 2**23 * 2**(e-23) = 2**24 * 2**(e-24), bounds against 2**c at thirteen fixed exponents c)')
         return one(st, Tup([m, e]))
 
     @reg('math.floor')
@@ -1069,7 +1143,7 @@ def install(eng):
     def _slog10(eng, st, args, kw, node):
         return one(st, LOG10(to_real(args[0])))
 
-    B['sys.float_info.epsilon'] = None
+    B['sys.float_info.epsilon'] = fractions.Fraction(1, 2 ** 52)     # binary64 machine epsilon
 
     # ------------------------------------------------ sequence methods
 
